@@ -25,6 +25,14 @@ def bad_bytes(pname, kind, good):
     if pname == "xml-plugin":
         return {"invalid-utf8": good.replace(b"t</el>", b"\xff\xfe</el>"), "syntax-error": good.replace(b"</root>", b"<unclosed>"), "nul-byte": good.replace(b"t</el>", b"\x00</el>")}.get(kind)
     if kind == "latin1-cookie": return b"# -*- coding: latin-1 -*-\n" + good + b"s = '\xe9'\n"
+    lines = good.splitlines(keepends=True)
+    if kind == "invalid-utf8-before-site-same-line":      # undecodable bytes in front of the fixable construct, on its own line
+        return b"".join(lines[:1]) + b"s = '\xff\xfe'; " + lines[1] + b"".join(lines[2:]) if len(lines) > 1 else None
+    if kind == "invalid-utf8-inside-site":                # ... inside it (a string literal argument)
+        if b"'" not in lines[1]: return None
+        i = lines[1].index(b"'"); return lines[0] + lines[1][:i + 1] + b"caf\xe9\xe8" + lines[1][i + 1:] + b"".join(lines[2:])
+    if kind == "invalid-utf8-after-site-same-line":
+        return lines[0] + lines[1].rstrip(b"\n") + b"; s = '\xff'\n" + b"".join(lines[2:])
     return good + BAD_PY[kind]
 
 def mkjob(pname, n, fault, pos, files, rf, mon, group, bad=None, badb=None, extra=None):
@@ -47,7 +55,8 @@ def plan(tier, seed):
             jobs.append(mkjob(pname, n, None, None, base, rf, {"snap": False}, group))
             positions = list(range(n)) if not quick else [0, n - 1]
             for i in positions:
-                for kind in ("invalid-utf8", "nul-byte", "syntax-error", "latin1-cookie"):
+                for kind in ("invalid-utf8", "nul-byte", "syntax-error", "latin1-cookie", "invalid-utf8-before-site-same-line", "invalid-utf8-inside-site", "invalid-utf8-after-site-same-line"):
+                    if kind.startswith("invalid-utf8-") and P["ext"] != ".py": continue
                     bb = bad_bytes(pname, kind, P["good"])
                     if bb is None: continue
                     files = dict(base); files[names[i]] = b64(bb)
@@ -93,7 +102,7 @@ def evaluate(job, run, base):
     if run["rc"] != 0 or run["exc"]:
         V(f"run-aborted/{fk}/{cm}", f"{cm}: the run did not complete (rc={run['rc']} exc={run['exc']}) with fault {fk} on {job['bad']}"); return v, True
     faults_hit = [e for e in run["trace"] if e["k"] == "fault"]
-    injected = fk in ("invalid-utf8", "nul-byte", "syntax-error", "latin1-cookie", "empty") or bool(faults_hit)
+    injected = fk in ("invalid-utf8", "nul-byte", "syntax-error", "latin1-cookie", "empty") or fk.startswith("invalid-utf8-") or bool(faults_hit)
     if not injected: return None, False      # fault never reached (e.g. failpoint j beyond this file's entries): not a decisive case
     pf = per_file(run); bad = job["bad"]
     for name, b in base.items():
@@ -115,6 +124,7 @@ def evaluate(job, run, base):
         # libcst (and the text pipelines) accept a NUL byte, so the file is processable: either outcome is within the statement.
         # (that the rewrite turns the NUL into a space is C03's nul-normalised class, not C10's)
         return v, True
+    if fk.startswith("invalid-utf8-"): fk = "invalid-utf8"      # same fault kind, other position: same obligations and same key space
     if fk == "latin1-cookie" and not mine["failed"] and not mine["changes"] and cm == "semgrep-detected":
         return v, True   # the detector may legitimately not select an undecodable file
     results = {r["codemod"]: r for r in run["report"]["results"]}
